@@ -228,63 +228,27 @@ func (i *Iterator) autoNext(ctx context.Context) bool {
 		i.err = err
 		return false
 	}
-	if endApprox.Lower.After(i.bounds.End) {
-		span := i.view.Start.Span(i.bounds.End)
-		if span <= 0 {
-			// The view already sits at or past the end of the bounds (a seek to a
-			// timestamp outside the bounds put it there); a span of -1 is AutoSpan and
-			// would recurse forever.
-			i.reset(i.bounds.End.SpanRange(0))
-			return false
-		}
-		return i.Next(ctx, span)
+	// The chunk is the AutoChunkSize samples at or after the start of the view, so the
+	// view must end at the timestamp of the sample that follows them. That is the
+	// UPPER bound of the approximation: when the view starts between two samples the
+	// lower bound is the timestamp of the chunk's own last sample, and a view ending
+	// there would exclude a sample the step returns (and the next step would return
+	// it again). When fewer samples remain the upper bound is the end of time and the
+	// step covers the rest of the bounds.
+	end := endApprox.Upper
+	if end.After(i.bounds.End) {
+		end = i.bounds.End
 	}
-	i.view.End = endApprox.Lower
-	i.reset(i.view.BoundBy(i.bounds))
-	if i.view.Span().IsZero() || !i.internal.SeekGE(ctx, i.view.Start) {
+	span := i.view.Start.Span(end)
+	if span <= 0 {
+		// The view already sits at or past the end of the bounds; a span of -1 is
+		// AutoSpan and would recurse forever.
+		i.reset(i.bounds.End.SpanRange(0))
 		return false
 	}
-
-	nRemaining := i.AutoChunkSize
-	for {
-		if !i.internal.TimeRange().OverlapsWith(i.view) {
-			if !i.internal.Next() {
-				return false
-			}
-			continue
-		}
-		startApprox, dmn, err := i.approximateStart(ctx)
-		if err != nil {
-			i.err = err
-			return false
-		}
-		startSample := startApprox.Upper
-		if !startApprox.Exact() && !startApprox.StartExact {
-			startSample = startApprox.Lower
-		}
-		startOffset, err := i.resolver.byteOffset(ctx, i.internal, startSample)
-		if err != nil {
-			i.err = err
-			return false
-		}
-		endOffset, err := i.resolver.byteOffset(ctx, i.internal, startSample+nRemaining)
-		if err != nil {
-			i.err = err
-			return false
-		}
-		series, err := i.read(ctx, dmn, startOffset, endOffset-startOffset)
-		if err != nil && !errors.Is(err, io.EOF) {
-			i.err = err
-			return false
-		}
-		nRemaining -= series.Len()
-		i.insert(series)
-		if nRemaining <= 0 || !i.internal.Next() {
-			break
-		}
-	}
-
-	return i.partiallySatisfied()
+	// Read by view, exactly like a fixed-span step: the frame then holds the samples
+	// inside the reported view by construction.
+	return i.Next(ctx, span)
 }
 
 func (i *Iterator) autoPrev(ctx context.Context) bool {
